@@ -1,2 +1,390 @@
-/- C10 — theorems under construction -/
+/-
+C10 — parsing delivers exactly what was written, regardless of layout.
+
+Part proved here (token level): for every value built from integers, decimals, quoted strings, bare identifiers and lists of
+any nesting, *whatever lines the tokens are on and with or without a trailing comma*, the grammar reads the token sequence back
+as exactly that value, with every node carrying the line of its first token (`expression_renders`).  The character level for the
+hardest token class - quoted strings with arbitrary content - is `C15.quote_roundtrip`.  The remaining glue (identifier and number
+scanning, layout between tokens, command/argument level) is not yet proved; until then the property as a whole is decided by the
+correspondence of this executable parser with the real one and by the round-trip oracle (registered as translation validation).
+-/
 import MPilot.Model.Grammar
+import Mathlib.Tactic.Common
+
+namespace MPilot.C10
+open MPilot
+
+/-- the next token ends a value: `,` `]` or `)` -/
+def IsTerm (ts : List Tok) : Prop := ∃ t r, ts = t :: r ∧ (t.kind = .comma ∨ t.kind = .rbrack ∨ t.kind = .rparen)
+
+theorem term_facts {t : Tok} (h : t.kind = .comma ∨ t.kind = .rbrack ∨ t.kind = .rparen) :
+    t.isErr = false ∧ isPsStart t.kind = false ∧ (t.kind == .colon) = false ∧ (t.kind == .string) = false := by
+  rcases h with h | h | h <;> simp [Tok.isErr, isPsStart, h]
+
+mutual
+  /-- `RVal ts e`: the token sequence `ts` is a rendering of the value whose parse-tree node is `e` -/
+  inductive RVal : List Tok → ENode → Prop
+    | int (n : Int) (l : Nat) : RVal [⟨.int, .int n, l⟩] (.mk (.int n) l)
+    | float (q : Rat) (l : Nat) : RVal [⟨.float, .float q, l⟩] (.mk (.float q) l)
+    | qstr (s : String) (l : Nat) : RVal [⟨.string, .str s, l⟩] (.mk (.str s) l)
+    | bare (s : String) (l : Nat) : RVal [⟨.id, .str s, l⟩] (.mk (.str s) l)
+    | nil (l l' : Nat) : RVal [⟨.lbrack, .none, l⟩, ⟨.rbrack, .none, l'⟩] (.mk (.list []) l)
+    | list (l l' : Nat) (ts : List Tok) (es : List ENode) : RElems ts es →
+        RVal (⟨.lbrack, .none, l⟩ :: ts ++ [⟨.rbrack, .none, l'⟩]) (.mk (.list es) l)
+  /-- one or more elements separated by commas, optionally followed by a trailing comma -/
+  inductive RElems : List Tok → List ENode → Prop
+    | one (ts : List Tok) (e : ENode) : RVal ts e → RElems ts [e]
+    | oneComma (ts : List Tok) (e : ENode) (lc : Nat) : RVal ts e → RElems (ts ++ [⟨.comma, .none, lc⟩]) [e]
+    | cons (ts : List Tok) (e : ENode) (lc : Nat) (ts' : List Tok) (es : List ENode) :
+        RVal ts e → RElems ts' es → RElems (ts ++ ⟨.comma, .none, lc⟩ :: ts') (e :: es)
+end
+
+/-- a rendering is never empty and starts with a token that is no lexer error, no colon, no terminator -/
+theorem RVal.head {ts : List Tok} {e : ENode} (h : RVal ts e) :
+    ∃ t r, ts = t :: r ∧ t.isErr = false ∧ (t.kind = .int ∨ t.kind = .float ∨ t.kind = .string ∨ t.kind = .id ∨ t.kind = .lbrack) := by
+  cases h <;> exact ⟨_, _, rfl, by simp [Tok.isErr], by simp⟩
+
+theorem atPair_lbrack (l : Nat) (rest : List Tok) : atPair (⟨.lbrack, .none, l⟩ :: rest) = false := by
+  have h4 : isPsStart TokKind.lbrack = false := rfl
+  cases rest with
+  | nil => unfold atPair; rfl
+  | cons a b =>
+    unfold atPair
+    simp only [List.takeWhile_cons, h4, Bool.false_eq_true, if_false]
+    simp
+
+/-- a rendered value followed by a terminator is not mistaken for the start of a tuple (`key :`) -/
+theorem atPair_false {ts : List Tok} {e : ENode} (h : RVal ts e) (rest : List Tok) (hr : IsTerm rest) : atPair (ts ++ rest) = false := by
+  obtain ⟨t, r, rfl, ht⟩ := hr
+  obtain ⟨_, hps, hcol, _⟩ := term_facts ht
+  have h1 : isPsStart TokKind.int = true := rfl
+  have h2 : isPsStart TokKind.float = true := rfl
+  have h3 : isPsStart TokKind.id = true := rfl
+  have h4 : isPsStart TokKind.lbrack = false := rfl
+  cases h with
+  | int n l =>
+    simp only [List.cons_append, List.nil_append]
+    unfold atPair
+    simp only [List.takeWhile_cons, h1, hps, if_true, Bool.false_eq_true, if_false]
+    simp
+  | float q l =>
+    simp only [List.cons_append, List.nil_append]
+    unfold atPair
+    simp only [List.takeWhile_cons, h2, hps, if_true, Bool.false_eq_true, if_false]
+    simp
+  | qstr s l =>
+    simp only [List.cons_append, List.nil_append]
+    unfold atPair
+    simp [hcol]
+  | bare s l =>
+    simp only [List.cons_append, List.nil_append]
+    unfold atPair
+    simp only [List.takeWhile_cons, h3, hps, if_true, Bool.false_eq_true, if_false]
+    simp [hcol]
+  | nil l l' =>
+    simp only [List.cons_append, List.nil_append]
+    unfold atPair
+    simp only [List.takeWhile_cons, h4, Bool.false_eq_true, if_false]
+    simp
+  | list l l' ts es he =>
+    simp only [List.cons_append]
+    exact atPair_lbrack _ _
+
+theorem RElems.head {ts : List Tok} {es : List ENode} (h : RElems ts es) :
+    ∃ t r, ts = t :: r ∧ t.isErr = false ∧ (t.kind = .int ∨ t.kind = .float ∨ t.kind = .string ∨ t.kind = .id ∨ t.kind = .lbrack) := by
+  cases h with
+  | one ts e hv => exact hv.head
+  | oneComma ts e lc hv => obtain ⟨t, r, rfl, h1, h2⟩ := hv.head; exact ⟨t, r ++ [_], rfl, h1, h2⟩
+  | cons ts e lc ts' es hv _ => obtain ⟨t, r, rfl, h1, h2⟩ := hv.head; exact ⟨t, r ++ _, rfl, h1, h2⟩
+
+theorem peek_head {t : Tok} {r : List Tok} (h : t.isErr = false) : peek (t :: r) = .ok (some t.kind) := by
+  simp [peek, h]
+
+/-- starts with `]` -/
+def IsClose (ts : List Tok) : Prop := ∃ t r, ts = t :: r ∧ t.kind = .rbrack
+
+theorem IsClose.term {ts : List Tok} (h : IsClose ts) : IsTerm ts := by
+  obtain ⟨t, r, rfl, hk⟩ := h; exact ⟨t, r, rfl, Or.inr (Or.inl hk)⟩
+
+theorem go_stop {t : Tok} (r : List Tok) (acc : String) (last : Option TokKind) (he : t.isErr = false) (hps : isPsStart t.kind = false) :
+    plainString.go (t :: r) acc last = .ok (acc, last, t :: r) := by
+  rw [plainString.go]; simp [he, hps]
+
+theorem plainString_id (s : String) (l : Nat) {t : Tok} (r : List Tok) (he : t.isErr = false) (hps : isPsStart t.kind = false) :
+    plainString (⟨.id, .str s, l⟩ :: t :: r) = .ok ((s, l), t :: r) := by
+  unfold plainString
+  have h3 : isPsStart TokKind.id = true := rfl
+  have h5 : (⟨.id, .str s, l⟩ : Tok).isErr = false := by simp [Tok.isErr]
+  rw [plainString.go]
+  simp only [h5, h3, tokText, go_stop r _ _ he hps]
+  simp
+
+theorem more_stop (f : Nat) (acc : String) {t : Tok} (r : List Tok) (he : t.isErr = false) (hc : (t.kind == .colon) = false) :
+    permissive.more (f + 1) acc (t :: r) = .ok (acc, t :: r) := by
+  rw [permissive.more, peek_head he]
+  have : t.kind ≠ .colon := by simpa using hc
+  split <;> simp_all
+
+theorem expression_lbrack (f l : Nat) (r : List Tok) :
+    expression (f + 1) (⟨.lbrack, .none, l⟩ :: r) =
+      (match listBody f r with | .error e => .error e | .ok (v, rest) => .ok (.mk v l, rest)) := by
+  rw [expression]; simp [Tok.isErr]
+  rcases listBody f r with e | ⟨v, rest⟩ <;> rfl
+
+theorem listBody_nonclose (f : Nat) {t : Tok} (r : List Tok) (he : t.isErr = false) (hk : t.kind ≠ .rbrack) :
+    listBody (f + 1) (t :: r) =
+      (match elements f (t :: r) with
+       | .error e => .error e
+       | .ok (v, rest) => match expect .rbrack rest with | .error e => .error e | .ok (_, rest') => .ok (v, rest')) := by
+  rw [listBody, peek_head he]; split <;> simp_all
+  rcases elements f (t :: r) with e | ⟨v, rest⟩
+  · rfl
+  · dsimp only; rcases expect TokKind.rbrack rest with e | ⟨_, rest'⟩ <;> rfl
+
+theorem listBody_close (f l : Nat) (r : List Tok) : listBody (f + 1) (⟨.rbrack, .none, l⟩ :: r) = .ok (.list [], r) := by
+  rw [listBody]; simp [peek, Tok.isErr]
+
+mutual
+  /-- **token-level round trip for values**: a rendering of a value, followed by a terminator, is read back as exactly that value -/
+  theorem expression_renders : ∀ {ts : List Tok} {e : ENode}, RVal ts e → ∀ (rest : List Tok) (fuel : Nat), IsTerm rest → 2 * ts.length ≤ fuel →
+      expression fuel (ts ++ rest) = .ok (e, rest)
+    | _, _, .int n l, rest, fuel, hr, hf => by
+        obtain ⟨t, r, rfl, ht⟩ := hr
+        obtain ⟨he, hps, _, _⟩ := term_facts ht
+        cases fuel with
+        | zero => simp at hf
+        | succ f =>
+          simp only [List.cons_append, List.nil_append]
+          unfold expression
+          simp [isNumberHere, he, hps, numVal]
+          simp [Tok.isErr]
+    | _, _, .float q l, rest, fuel, hr, hf => by
+        obtain ⟨t, r, rfl, ht⟩ := hr
+        obtain ⟨he, hps, _, _⟩ := term_facts ht
+        cases fuel with
+        | zero => simp at hf
+        | succ f =>
+          simp only [List.cons_append, List.nil_append]
+          unfold expression
+          simp [isNumberHere, he, hps, numVal]
+          simp [Tok.isErr]
+    | _, _, .qstr s l, rest, fuel, hr, hf => by
+        cases fuel with
+        | zero => simp at hf
+        | succ f =>
+          simp only [List.cons_append, List.nil_append]
+          unfold expression
+          simp [Tok.isErr, numVal]
+    | _, _, .bare s l, rest, fuel, hr, hf => by
+        obtain ⟨t, r, rfl, ht⟩ := hr
+        obtain ⟨he, hps, hcol, _⟩ := term_facts ht
+        cases fuel with
+        | zero => simp at hf
+        | succ f =>
+          simp only [List.cons_append, List.nil_append]
+          unfold expression
+          have hperm : permissive ((⟨.id, .str s, l⟩ :: t :: r : List Tok).length + 1) (⟨.id, .str s, l⟩ :: t :: r) = .ok ((s, l), t :: r) := by
+            unfold permissive
+            rw [plainString_id s l r he hps]
+            simp only [List.length_cons]
+            rw [more_stop _ _ _ he hcol]
+          simp only [List.length_cons] at hperm
+          simp [Tok.isErr, isNumberHere, isPsStart, hperm]
+    | _, _, .nil l l', rest, fuel, hr, hf => by
+        cases fuel with
+        | zero => simp at hf
+        | succ f =>
+          cases f with
+          | zero => simp at hf; try omega
+          | succ f' =>
+            simp only [List.cons_append, List.nil_append]
+            rw [expression_lbrack, listBody_close]
+    | _, _, .list l l' ts es hes, rest, fuel, hr, hf => by
+        cases fuel with
+        | zero => simp at hf
+        | succ f =>
+          cases f with
+          | zero => simp at hf; try omega
+          | succ f' =>
+            have hclose : IsClose ((⟨.rbrack, .none, l'⟩ : Tok) :: rest) := ⟨_, _, rfl, rfl⟩
+            have ih := elements_renders hes (⟨.rbrack, .none, l'⟩ :: rest) f' hclose (by simp at hf; omega)
+            obtain ⟨t0, r0, rfl, h0e, h0k⟩ := hes.head
+            simp only [List.cons_append, List.nil_append, List.append_assoc] at ih ⊢
+            have : t0.kind ≠ .rbrack := by rcases h0k with h | h | h | h | h <;> simp [h]
+            rw [expression_lbrack, listBody_nonclose _ _ h0e this, ih]
+            simp [Tok.isErr, expect]
+
+  theorem elements_renders : ∀ {ts : List Tok} {es : List ENode}, RElems ts es → ∀ (rest : List Tok) (fuel : Nat), IsClose rest → 2 * ts.length + 1 ≤ fuel →
+      elements fuel (ts ++ rest) = .ok (.list es, rest)
+    | _, _, .one ts e hv, rest, fuel, hr, hf => by
+        cases fuel with
+        | zero => simp at hf
+        | succ f =>
+          have hat := atPair_false hv rest hr.term
+          have ih := expression_renders hv rest f hr.term (by omega)
+          obtain ⟨t, r, rfl, hk⟩ := hr
+          have he : t.isErr = false := by simp [Tok.isErr, hk]
+          rw [elements]
+          simp only [hat, Bool.false_eq_true, if_false, ih, peek_head he, hk]
+    | _, _, .oneComma ts e lc hv, rest, fuel, hr, hf => by
+        cases fuel with
+        | zero => simp at hf
+        | succ f =>
+          have hterm : IsTerm ((⟨.comma, .none, lc⟩ : Tok) :: rest) := ⟨_, _, rfl, Or.inl rfl⟩
+          have hat := atPair_false hv _ hterm
+          have ih := expression_renders hv _ f hterm (by simp at hf; omega)
+          obtain ⟨t, r, rfl, hk⟩ := hr
+          have he : t.isErr = false := by simp [Tok.isErr, hk]
+          simp only [List.append_assoc, List.cons_append, List.nil_append]
+          rw [elements]
+          simp only [hat, Bool.false_eq_true, if_false, ih]
+          simp [peek, Tok.isErr, hk]
+    | _, _, .cons ts e lc ts' es hv hes, rest, fuel, hr, hf => by
+        cases fuel with
+        | zero => simp at hf
+        | succ f =>
+          have hterm : IsTerm ((⟨.comma, .none, lc⟩ : Tok) :: (ts' ++ rest)) := ⟨_, _, rfl, Or.inl rfl⟩
+          have hat := atPair_false hv _ hterm
+          have ih := expression_renders hv _ f hterm (by simp at hf; omega)
+          have ih2 := elements_renders hes rest f hr (by simp at hf; omega)
+          obtain ⟨t0, r0, rfl, h0e, h0k⟩ := hes.head
+          have hnc : t0.kind ≠ .rbrack := by rcases h0k with h | h | h | h | h <;> simp [h]
+          simp only [List.append_assoc, List.cons_append, List.nil_append] at *
+          rw [elements]
+          simp only [hat, Bool.false_eq_true, if_false, ih]
+          have hce : (⟨.comma, .none, lc⟩ : Tok).isErr = false := by simp [Tok.isErr]
+          rw [peek_head hce]
+          simp only [List.drop_one, List.tail_cons, List.drop_succ_cons, List.drop_zero]
+          rw [peek_head h0e, ih2]
+          split <;> simp_all
+end
+
+/-! ### arguments, commands, programs -/
+
+/-- `name = value` -/
+inductive RArg : List Tok → ANode → Prop
+  | mk (n : String) (la le : Nat) (ts : List Tok) (e : ENode) : RVal ts e →
+      RArg (⟨.id, .str n, la⟩ :: ⟨.equal, .none, le⟩ :: ts) ⟨n, e, la⟩
+
+/-- one or more arguments separated by commas, optionally followed by a trailing comma -/
+inductive RArgs : List Tok → List ANode → Prop
+  | one (ts : List Tok) (a : ANode) : RArg ts a → RArgs ts [a]
+  | oneComma (ts : List Tok) (a : ANode) (lc : Nat) : RArg ts a → RArgs (ts ++ [⟨.comma, .none, lc⟩]) [a]
+  | cons (ts : List Tok) (a : ANode) (lc : Nat) (ts' : List Tok) (as : List ANode) :
+      RArg ts a → RArgs ts' as → RArgs (ts ++ ⟨.comma, .none, lc⟩ :: ts') (a :: as)
+
+/-- `Result = Command(arguments)`; the command node carries the line of the command name -/
+inductive RCmd : List Tok → CNode → Prop
+  | noArgs (r c : String) (l1 le lc lp lp' : Nat) :
+      RCmd [⟨.id, .str r, l1⟩, ⟨.equal, .none, le⟩, ⟨.id, .str c, lc⟩, ⟨.lparen, .none, lp⟩, ⟨.rparen, .none, lp'⟩] ⟨some r, c, [], lc⟩
+  | args (r c : String) (l1 le lc lp lp' : Nat) (ts : List Tok) (as : List ANode) : RArgs ts as →
+      RCmd (⟨.id, .str r, l1⟩ :: ⟨.equal, .none, le⟩ :: ⟨.id, .str c, lc⟩ :: ⟨.lparen, .none, lp⟩ :: ts ++ [⟨.rparen, .none, lp'⟩]) ⟨some r, c, as, lc⟩
+
+inductive RProg : List Tok → List CNode → Prop
+  | one (ts : List Tok) (c : CNode) : RCmd ts c → RProg ts [c]
+  | cons (ts : List Tok) (c : CNode) (ts' : List Tok) (cs : List CNode) : RCmd ts c → RProg ts' cs → RProg (ts ++ ts') (c :: cs)
+
+theorem argument_renders {ts : List Tok} {a : ANode} (h : RArg ts a) (rest : List Tok) (hr : IsTerm rest) :
+    argument (ts ++ rest) = .ok (a, rest) := by
+  cases h with
+  | mk n la le ts e hv =>
+    have := expression_renders hv rest (2 * (ts.length + rest.length) + 2) hr (by omega)
+    simp [argument, expect, Tok.isErr, this]
+
+theorem RArg.head {ts : List Tok} {a : ANode} (h : RArg ts a) : ∃ t r, ts = t :: r ∧ t.isErr = false ∧ t.kind = .id := by
+  cases h; exact ⟨_, _, rfl, by simp [Tok.isErr], rfl⟩
+
+theorem RArgs.head {ts : List Tok} {as : List ANode} (h : RArgs ts as) : ∃ t r, ts = t :: r ∧ t.isErr = false ∧ t.kind = .id := by
+  cases h with
+  | one ts a ha => exact ha.head
+  | oneComma ts a lc ha => obtain ⟨t, r, rfl, h1, h2⟩ := ha.head; exact ⟨t, r ++ [_], rfl, h1, h2⟩
+  | cons ts a lc ts' as ha _ => obtain ⟨t, r, rfl, h1, h2⟩ := ha.head; exact ⟨t, r ++ _, rfl, h1, h2⟩
+
+theorem RArg.len {ts : List Tok} {a : ANode} (h : RArg ts a) : 3 ≤ ts.length := by
+  cases h with
+  | mk n la le ts e hv => obtain ⟨t, r, rfl, _⟩ := hv.head; simp
+
+theorem args_go_renders : ∀ {ts : List Tok} {as : List ANode}, RArgs ts as → ∀ (lp : Nat) (rest : List Tok) (fuel : Nat) (acc : List ANode),
+    ts.length ≤ fuel → arguments.go fuel (ts ++ ⟨.rparen, .none, lp⟩ :: rest) acc = .ok (acc.reverse ++ as, rest)
+  | _, _, .one ts a ha, lp, rest, fuel, acc, hf => by
+      have hterm : IsTerm ((⟨.rparen, .none, lp⟩ : Tok) :: rest) := ⟨_, _, rfl, Or.inr (Or.inr rfl)⟩
+      have hl := ha.len
+      cases fuel with
+      | zero => omega
+      | succ f =>
+        rw [arguments.go, argument_renders ha _ hterm]
+        simp [peek, Tok.isErr]
+  | _, _, .oneComma ts a lc ha, lp, rest, fuel, acc, hf => by
+      have hterm : IsTerm ((⟨.comma, .none, lc⟩ : Tok) :: ⟨.rparen, .none, lp⟩ :: rest) := ⟨_, _, rfl, Or.inl rfl⟩
+      cases fuel with
+      | zero => simp at hf
+      | succ f =>
+        simp only [List.append_assoc, List.cons_append, List.nil_append]
+        rw [arguments.go, argument_renders ha _ hterm]
+        simp [peek, Tok.isErr]
+  | _, _, .cons ts a lc ts' as ha has, lp, rest, fuel, acc, hf => by
+      have hterm : IsTerm ((⟨.comma, .none, lc⟩ : Tok) :: (ts' ++ ⟨.rparen, .none, lp⟩ :: rest)) := ⟨_, _, rfl, Or.inl rfl⟩
+      cases fuel with
+      | zero => simp at hf
+      | succ f =>
+        have ih := args_go_renders has lp rest f (a :: acc) (by simp at hf; omega)
+        obtain ⟨t0, r0, rfl, h0e, h0k⟩ := has.head
+        simp only [List.append_assoc, List.cons_append, List.nil_append] at *
+        rw [arguments.go, argument_renders ha _ hterm]
+        have hce : (⟨.comma, .none, lc⟩ : Tok).isErr = false := by simp [Tok.isErr]
+        simp only []
+        rw [peek_head hce]
+        simp only [List.drop_succ_cons, List.drop_zero]
+        rw [peek_head h0e, ih, h0k]
+        simp
+
+theorem command_renders {ts : List Tok} {c : CNode} (h : RCmd ts c) (rest : List Tok) :
+    command (ts ++ rest) = .ok ((c, false), rest) := by
+  cases h with
+  | noArgs r c l1 le lc lp lp' =>
+    simp [command, expect, peek, Tok.isErr, arguments]
+  | args r c l1 le lc lp lp' ts as has =>
+    have hgo := args_go_renders has lp' rest ((ts ++ ⟨.rparen, .none, lp'⟩ :: rest).length + 1) [] (by simp; omega)
+    obtain ⟨t0, r0, rfl, h0e, h0k⟩ := has.head
+    simp only [List.append_assoc, List.cons_append, List.nil_append, List.length_cons, List.length_append] at *
+    simp [command, expect, peek, Tok.isErr, arguments, h0e, h0k, hgo]
+
+theorem RCmd.len {ts : List Tok} {c : CNode} (h : RCmd ts c) : 5 ≤ ts.length := by
+  cases h <;> simp
+
+theorem RProg.ne {ts : List Tok} {cs : List CNode} (h : RProg ts cs) : ts ≠ [] := by
+  cases h with
+  | one ts c hc => have := hc.len; intro h; simp [h] at this
+  | cons ts c ts' cs hc _ => have := hc.len; intro h; simp at h; simp [h.1] at this
+
+theorem parse_go_renders : ∀ {ts : List Tok} {cs : List CNode}, RProg ts cs → ∀ (fuel : Nat) (acc : List CNode),
+    ts.length ≤ fuel → parseToks.go fuel ts acc false = .ok ⟨acc.reverse ++ cs, 3⟩
+  | _, _, .one ts c hc, fuel, acc, hf => by
+      have hl := hc.len
+      cases fuel with
+      | zero => omega
+      | succ f =>
+        have := command_renders hc []
+        simp only [List.append_nil] at this
+        rw [parseToks.go, this]
+        simp
+  | _, _, .cons ts c ts' cs hc hcs, fuel, acc, hf => by
+      have hl := hc.len
+      simp only [List.length_append] at hf
+      cases fuel with
+      | zero => omega
+      | succ f =>
+        have ih := parse_go_renders hcs f (c :: acc) (by omega)
+        rw [parseToks.go, command_renders hc ts']
+        have hne := hcs.ne
+        cases ts' with
+        | nil => exact absurd rfl hne
+        | cons t r => simp [ih]
+
+/-- **C10 at token level**: any rendering of a version-3 program - whatever lines its tokens are on, with or without trailing
+commas, lists nested to any depth - is read back as exactly that program, each node carrying the line of its first token -/
+theorem program_renders {ts : List Tok} {cs : List CNode} (h : RProg ts cs) : parseToks ts = .ok ⟨cs, 3⟩ := by
+  have := parse_go_renders h (ts.length + 1) [] (by omega)
+  simpa [parseToks] using this
+
+end MPilot.C10
